@@ -11,6 +11,7 @@ import (
 	"fmt"
 	"os"
 	"sort"
+	"strings"
 
 	"github.com/sarchlab/akita/v4/mem/idealmemcontroller"
 	"github.com/sarchlab/akita/v4/mem/mem"
@@ -30,6 +31,7 @@ type memCfg struct {
 	TopBuf   int    `json:"top_buf"`   // incoming/outgoing buffer of the memory's port
 	StallPct int    `json:"stall_pct"` // fake only: chance per cycle of not accepting
 	Width    int    `json:"width"`
+	Split    uint64 `json:"split,omitempty"` // ideal only: two controllers interleaved at this many bytes (0 = one controller)
 }
 
 type pmcCfg struct {
@@ -68,8 +70,12 @@ var pageSizes = []uint64{64, 128, 192, 256, 1024, 4096, 4096, 4096, 8192, 16384,
 
 func genMem(r *vlib.PRNG) memCfg {
 	if r.Chance(2, 5) {
-		return memCfg{Kind: "ideal", Latency: []int{1, 5, 20, 100}[r.Intn(4)],
+		m := memCfg{Kind: "ideal", Latency: []int{1, 5, 20, 100}[r.Intn(4)],
 			TopBuf: []int{1, 2, 16}[r.Intn(3)], Width: 1 + r.Intn(2)}
+		if fr := r.Fork("split"); fr.Chance(1, 2) { // forked: the other draws of the scenario stay what they were
+			m.Split = []uint64{64, 256, 1024, 2048}[fr.Intn(4)]
+		}
+		return m
 	}
 	return memCfg{Kind: "fake", Latency: []int{0, 1, 3, 10, 50, 200}[r.Intn(6)],
 		Jitter: []int{0, 0, 2, 8, 40}[r.Intn(5)], TopBuf: []int{1, 1, 2, 4, 16}[r.Intn(5)],
@@ -483,6 +489,10 @@ func runPMCScenario(rec vlib.Recorder, s pmcScenario) {
 	model := make([][]byte, n)
 	pmcs := make([]*pmcpkg.PageMigrationController, n)
 	fakes := make([]*fakeMem, n)
+	finders := make([]mem.AddressToPortMapper, n)
+	tops2 := make([]sim.Port, n)
+	var misrouted []string
+	var routedChecked int64
 	remoteTable := &mem.BankedAddressPortMapper{BankSize: c.MemSize}
 	remoteTable.LowModules = append(remoteTable.LowModules, sim.RemotePort("CPU"))
 	remoteConn := simkit.Connect(engine, freq, "PCIe")
@@ -501,15 +511,30 @@ func runPMCScenario(rec vlib.Recorder, s pmcScenario) {
 			m := idealmemcontroller.MakeBuilder().WithEngine(engine).WithFreq(freq).WithLatency(mc.Latency).
 				WithTopBufSize(mc.TopBuf).WithWidth(mc.Width).WithStorage(storages[i]).Build(fmt.Sprintf("Mem%d", i))
 			top = m.GetPortByName("Top")
+			if mc.Split > 0 {
+				// the GPU's memory is two controllers interleaved below the page size (same backing storage)
+				m2 := idealmemcontroller.MakeBuilder().WithEngine(engine).WithFreq(freq).WithLatency(mc.Latency).
+					WithTopBufSize(mc.TopBuf).WithWidth(mc.Width).WithStorage(storages[i]).Build(fmt.Sprintf("Mem%dB", i))
+				il := mem.NewInterleavedAddressPortMapper(mc.Split)
+				il.LowModules = []sim.RemotePort{top.AsRemote(), m2.GetPortByName("Top").AsRemote()}
+				finders[i] = il
+				tops2[i] = m2.GetPortByName("Top")
+			}
 		} else {
 			fakes[i] = newFakeMem(fmt.Sprintf("Mem%d", i), engine, freq, mc, storages[i], memRng.ForkN("m", i))
 			top = fakes[i].Top
 		}
-		pmcs[i] = pmcpkg.NewPageMigrationController(fmt.Sprintf("PMC%d", i), engine,
-			&mem.SinglePortMapper{Port: top.AsRemote()}, remoteTable)
+		if finders[i] == nil {
+			finders[i] = &mem.SinglePortMapper{Port: top.AsRemote()}
+		}
+		pmcs[i] = pmcpkg.NewPageMigrationController(fmt.Sprintf("PMC%d", i), engine, finders[i], remoteTable)
 		remoteTable.LowModules = append(remoteTable.LowModules, pmcs[i].GetPortByName("Remote").AsRemote())
 		remoteConn.PlugIn(pmcs[i].GetPortByName("Remote"))
-		simkit.Connect(engine, freq, fmt.Sprintf("MemConn%d", i), pmcs[i].GetPortByName("LocalMem"), top)
+		if tops2[i] != nil {
+			simkit.Connect(engine, freq, fmt.Sprintf("MemConn%d", i), pmcs[i].GetPortByName("LocalMem"), top, tops2[i])
+		} else {
+			simkit.Connect(engine, freq, fmt.Sprintf("MemConn%d", i), pmcs[i].GetPortByName("LocalMem"), top)
+		}
 		cpPorts[i] = cp.NewPort(fmt.Sprintf("ToPMC%d", i), c.CtrlInBuf, 8)
 		simkit.Connect(engine, freq, fmt.Sprintf("CtrlConn%d", i), cpPorts[i], pmcs[i].GetPortByName("Control"))
 		log.Attach(pmcs[i].GetPortByName("Remote"), fmt.Sprintf("%d.Remote", i))
@@ -540,6 +565,17 @@ func runPMCScenario(rec vlib.Recorder, s pmcScenario) {
 	log.OnEvent = func(e simkit.Event) {
 		if e.Kind != simkit.KSend {
 			return
+		}
+		if ar, ok := e.Msg.(mem.AccessReq); ok && strings.HasSuffix(e.Port, ".LocalMem") {
+			var i int
+			fmt.Sscanf(e.Port, "%d.LocalMem", &i)
+			if tops2[i] != nil {
+				routedChecked++
+				if want := finders[i].Find(ar.GetAddress()); ar.Meta().Dst != want && len(misrouted) < 3 {
+					misrouted = append(misrouted, fmt.Sprintf("PMC%d sent %T of address 0x%x to %s; the controller owning that address (interleave %d) is %s",
+						i, e.Msg, ar.GetAddress(), ar.Meta().Dst, c.Mems[i].Split, want))
+				}
+			}
 		}
 		if _, ok := e.Msg.(*pmcpkg.PageMigrationRspFromPMC); !ok {
 			return
@@ -645,6 +681,10 @@ func runPMCScenario(rec vlib.Recorder, s pmcScenario) {
 		}
 		seen[key] = true
 		rec.Violation("C19|pmc|"+key, s.Name+": "+what, wit(extra))
+	}
+	rec.Count("pmc_memory_requests_checked_against_interleaved_controllers", routedChecked)
+	for _, m := range misrouted {
+		viol("memory-request-sent-to-a-controller-that-does-not-own-the-address", m, nil)
 	}
 	if pv != nil {
 		key := "crash"
